@@ -29,16 +29,16 @@ type crashTask struct {
 }
 
 type crashResult struct {
-	Positions  int      `json:"positions"`
-	Images     int      `json:"images"`
-	Distinct   int      `json:"distinct"`
-	Nontrivial int      `json:"nontrivial"`
-	NestedImgs int      `json:"nested"`
-	Viol       []string `json:"viol,omitempty"`
-	VPos       int      `json:"vpos,omitempty"`
-	VVariant   string   `json:"vvariant,omitempty"`
-	StorOps    int      `json:"stor_ops"`
-	Tables     int      `json:"lsm_tables"`
+	Positions  int            `json:"positions"`
+	Images     int            `json:"images"`
+	Distinct   int            `json:"distinct"`
+	Nontrivial int            `json:"nontrivial"`
+	NestedImgs int            `json:"nested"`
+	Viol       []string       `json:"viol,omitempty"`
+	VPos       int            `json:"vpos,omitempty"`
+	VVariant   string         `json:"vvariant,omitempty"`
+	StorOps    int            `json:"stor_ops"`
+	Tables     int            `json:"lsm_tables"`
 	ByKind     map[string]int `json:"by_kind,omitempty"`
 }
 
